@@ -19,6 +19,24 @@ CHECKS = {
 CHECKS["C05"] = ("fwsim", "exploration", "deterministic simulation: lock-step refinement of the real Framework against an executable reference semantics under fault-injected histories, plus twin/clone replay determinism",
    "Every call of every simulated history is compared (actions, current state, counters, remaining limit) with an independent executable reference of the stated semantics; original, identically-built twin and mid-history clone must agree forever. Seeded search incl. a densely sampled small scope; not exhaustive.",
    "Reference semantics hand-written from documentation + property statements (mirrors code where those are silent); Dist::sample trusted as a leaf; comparisons within 1e-12 of a fraction limit are skipped.", "DESIGN.md §5, §6 C05")
+CHECKS["C02"] = ("fwsim", "exploration", "deterministic simulation: independent recount of NormalSent/PaddingSent reports as invariant over fault-injected single-event histories",
+   "Whenever a single-event call of a simulated history returns SendPadding, the budget predicate of the statement is re-evaluated from an independent recount of the reports (exact rational and f64, alarm only if both agree).",
+   "Histories are sampled; batches are covered via C05.", "DESIGN.md §6 C02")
+CHECKS["C03"] = ("fwsim", "exploration", "deterministic simulation: blocked time recomputed from reports and the virtual clock (stall/back/jump faults) as invariant over single-event histories",
+   "Whenever a single-event call returns BlockOutgoing, blocked time and share are recomputed from BlockingBegin/BlockingEnd reports and call timestamps and the statement's disjunction is evaluated (two-way comparison at the limit).",
+   "Virtual clock is u64 ns; machine start = framework start.", "DESIGN.md §6 C03")
+CHECKS["C07"] = ("fwsim", "exploration", "deterministic simulation: per-stay completion counting monitor over the H1 log + lock-step with the reference semantics",
+   "A statement-level monitor counts own completions per stay and checks LimitReached timing, withdrawal and that no limited action is scheduled/returned with an exhausted or zero limit; det/dyadic families also run in lock-step with the reference (remaining limit compared after every call).",
+   "Statement monitor follows single-event calls (stops at the first batch; batches judged via reference). Sampled limits read from H1.", "DESIGN.md §6 C07")
+CHECKS["C08"] = ("fwsim", "exploration", "deterministic simulation: counter-update records checked against independently recomputed saturating arithmetic and CounterZero timing; lock-step with the reference",
+   "Every logged counter update of every simulated call is recomputed (unit/copy/constant exactly, sampled by direction), continuity with the snapshot is enforced, CounterZero must follow exactly the non-zero->zero updates, once per counter and machine per call.",
+   "Counter values read from H1 records, cross-checked with the snapshot after each call.", "DESIGN.md §6 C08")
+CHECKS["C09"] = ("fwsim", "exploration", "deterministic simulation: per-call signal accounting over the H1 log (who signalled, who was delivered, who had ended); lock-step with the reference",
+   "For every call the exactly-once / never-the-lone-signaller / answer rule is evaluated from the log; pending signals after a call and deliveries without a signaller are violations.",
+   "Signals/deliveries/END read from the H1 log.", "DESIGN.md §6 C09")
+CHECKS["C10"] = ("fwsim", "exploration", "deterministic simulation: differential run (machine among neighbours vs. alone on the id-projected history)",
+   "The same fault-injected history drives the combined framework and the target alone (ids renamed); the target's actions must agree call by call.",
+   "Target from the det family so the shared RNG cannot matter; neighbours never signal; framework fractions 0.", "DESIGN.md §6 C10")
 NOT_YET = {}
 NA = {
  "C12": "pure predicate over one machine value: no history, clock, random draw, interleaving or stored-byte fault takes part in deciding whether validation accepts a value; deciding it is input generation (property-based testing), not deterministic simulation (DESIGN.md §7)",
